@@ -86,6 +86,17 @@ func (o outcome) MarshalJSON() ([]byte, error) {
 var progress, running atomic.Int64
 var where atomic.Value // what is running, for the hang report
 
+// setWhere records what is about to run, and says so on stdout ({"running":{...}}): when the process dies in the middle
+// (race report with halt_on_error, runtime throw) the runner knows the goroutines, calls and types that were in flight.
+func setWhere(desc map[string]any) {
+	where.Store(desc)
+	stdoutMu.Lock()
+	_ = json.NewEncoder(os.Stdout).Encode(map[string]any{"running": desc})
+	stdoutMu.Unlock()
+}
+
+var stdoutMu sync.Mutex
+
 const hangAfter = 10 * time.Second
 
 var goroutineHead = regexp.MustCompile(`^goroutine (\d+) \[([^\]]*)\]:`)
@@ -194,7 +205,7 @@ func doCall(cd *j5codec.Codec, b *cdesc.Built, enc map[int]string, c call) (o ou
 
 // goAll runs the bodies as goroutines released together and waits for them; the watchdog is armed meanwhile.
 func goAll(desc map[string]any, bodies []func()) {
-	where.Store(desc)
+	setWhere(desc)
 	gate := make(chan struct{})
 	var wg sync.WaitGroup
 	for _, body := range bodies {
@@ -282,6 +293,79 @@ func warmCold(enc *json.Encoder, seed uint64, k int, r *vh.Rand) int {
 	return int(progress.Load() - before)
 }
 
+// distinctPkgs: every type lives in a proto package of its own, which the shared codec has not seen; on a fresh codec (or one
+// that is warm for a few of the packages) all goroutines start together, each making the first use of the type of ITS
+// package, then of the next goroutines' types. Repeated on fresh codecs; every result is compared with the solo result.
+func distinctPkgs(enc *json.Encoder, seed uint64, k int, r *vh.Rand) int {
+	ng := r.Range(6, 24)
+	reps := r.Range(30, 60)
+	u := &cdesc.Universe{Tag: fmt.Sprintf("r%dx%ddp", seed, k)}
+	for i := 0; i < ng; i++ {
+		nd := cdesc.Node{Kind: cdesc.KMsg, Pkg: i, Refs: []int{}, Shape: []int{}}
+		if i > 0 && r.Chance(30) {
+			// a field of a type of an earlier package (also new to the codec when this goroutine gets there first)
+			nd.Refs, nd.Shape = []int{r.Intn(i)}, []int{cdesc.FSingle}
+		}
+		u.Nodes = append(u.Nodes, nd)
+	}
+	b, err := u.Build()
+	if err != nil {
+		fmt.Fprintln(os.Stderr, "build:", err)
+		os.Exit(3)
+	}
+	encoded := map[int]string{}
+	solo := map[call]outcome{}
+	for i := range u.Nodes {
+		o := doCall(j5codec.NewCodec(), b, nil, call{Kind: 1, Node: i}).settled()
+		encoded[i] = o.Out
+		solo[call{Kind: 1, Node: i}] = o
+	}
+	for i := range u.Nodes {
+		for kind := 2; kind <= 3; kind++ {
+			solo[call{Kind: kind, Node: i}] = doCall(j5codec.NewCodec(), b, encoded, call{Kind: kind, Node: i}).settled()
+		}
+	}
+	before := progress.Load()
+	for rep := 0; rep < reps; rep++ {
+		shared := j5codec.NewCodec()
+		warm := 0
+		if rep%3 == 2 {
+			// partly warm: the first packages are known to the codec, readers of those overlap the first uses of the rest
+			warm = 1 + rep%(ng-1)
+			for i := 0; i < warm; i++ {
+				_ = doCall(shared, b, encoded, call{Kind: 1, Node: i})
+			}
+		}
+		calls := make([][]call, ng)
+		for g := range calls {
+			kind := 1 + (g+rep)%3
+			calls[g] = []call{{Kind: kind, Node: g}, {Kind: 1 + (g+rep+1)%3, Node: (g + 1) % ng}}
+		}
+		got := make([][]outcome, ng)
+		var bodies []func()
+		for g := 0; g < ng; g++ {
+			g := g
+			bodies = append(bodies, func() {
+				for _, c := range calls[g] {
+					got[g] = append(got[g], doCall(shared, b, encoded, c))
+				}
+			})
+		}
+		desc := map[string]any{"round": k, "mode": "distinct-packages", "repetition": rep, "goroutines": ng, "packages": ng, "warm_packages": warm,
+			"universe": u, "calls": calls, "how": "worker -seed S -start ROUND -rounds ROUND+1"}
+		goAll(desc, bodies)
+		for g := range calls {
+			for i, c := range calls[g] {
+				if i < len(got[g]) && !got[g][i].same(solo[c]) {
+					_ = enc.Encode(map[string]any{"fail": map[string]any{"round": k, "mode": "distinct-packages", "repetition": rep, "goroutines": ng,
+						"warm_packages": warm, "universe": u, "calls": calls, "goroutine": g, "call": i, "got": got[g][i], "want": solo[c]}})
+				}
+			}
+		}
+	}
+	return int(progress.Load() - before)
+}
+
 // deepDecode: a recursive type; documents nested `depth` levels, each inside the decoder's nesting limit; several
 // goroutines decode them at the same time on one codec (also the package-level Global), each result compared with the solo result.
 func deepDecode(enc *json.Encoder, seed uint64, k int, r *vh.Rand) int {
@@ -362,6 +446,10 @@ func main() {
 				continue
 			case 4:
 				total += deepDecode(enc, *seed, k, r)
+				continue
+			case 2, 22:
+				// first uses of types from distinct NEW packages overlap on one shared codec
+				total += distinctPkgs(enc, *seed, k, r)
 				continue
 			}
 		}
@@ -460,7 +548,7 @@ func main() {
 				}
 			}()
 		}
-		where.Store(map[string]any{"round": k, "mode": mode, "shape": why, "universe": u, "goroutines": ng, "calls": calls})
+		setWhere(map[string]any{"round": k, "mode": mode, "shape": why, "universe": u, "goroutines": ng, "calls": calls})
 		running.Store(1)
 		close(gate)
 		wg.Wait()
@@ -532,7 +620,7 @@ func main() {
 					}
 				}()
 			}
-			where.Store(map[string]any{"round": k, "mode": "storm", "shape": why, "universe": u, "goroutines": ngs, "iterations": iters})
+			setWhere(map[string]any{"round": k, "mode": "storm", "shape": why, "universe": u, "goroutines": ngs, "iterations": iters})
 			running.Store(1)
 			close(gate)
 			wg.Wait()
